@@ -739,7 +739,7 @@ impl FlexScen {
         // group's own smart queries: model-independent self-check, reported as `hdiff=`
         let mut hdiff: Vec<String> = vec![];
         {
-            let helper = cw4::Cw4Contract(group.clone());
+            let helper = cw4::Cw4Contract::new(group.clone());
             let q = app.wrap();
             let mut hs: Vec<u64> = self.ph.iter().map(|(_, h)| *h).collect();
             hs.push(self.block.height);
@@ -777,6 +777,16 @@ impl FlexScen {
             if let Some(l) = self.qs::<MemberListResponse>(group, &GroupQuery::ListMembers { start_after: None, limit: None }) {
                 if helper.list_members(&q, None, None).ok() != Some(l.members) {
                     hdiff.push("list_members".to_string());
+                }
+            }
+            if let Some(hk) = self.qs::<cw_controllers::HooksResponse>(group, &GroupQuery::Hooks {}) {
+                if helper.hooks(&q).ok() != Some(hk.hooks) {
+                    hdiff.push("hooks".to_string());
+                }
+            }
+            if let Some(ad) = self.qs::<cw_controllers::AdminResponse>(group, &GroupQuery::Admin {}) {
+                if helper.admin(&q).ok() != Some(ad.admin) {
+                    hdiff.push("admin".to_string());
                 }
             }
             hdiff.truncate(3);
